@@ -164,16 +164,60 @@ def releases(run, seed):
             run.case(["releases", version], True, sample=case, classes=["releases"])
 
 
+def standing(run):
+    """Two fixed scenarios about files that are ALREADY complete in the destination:
+    (vanish) a candidate of another file disappears between the indexing of the search
+    directories and the rebuild; (part) the torrent lists both `x.bin` and `x.bin.part`, the
+    latter is already complete in the destination and only `x.bin` is found this time.  In both
+    the complete destination file must be exactly what it was."""
+    from harness.common import quiet, write_tree
+    from torrentfile.rebuild import Assembler
+    for version in (1, 2, 3):
+        for scen in ("vanish", "part"):
+            with sandbox("c14s") as box:
+                files = [("a.bin", "r1.20000"), ("b.bin", "r2.300")] if scen == "vanish" else \
+                    [("x.bin", "r1.20000"), ("x.bin.part", "r2.30000")]
+                t = {"name": "pack", "files": files, "pl": 16384, "version": version, "single": False,
+                     "source": "own"}
+                mpath, raw = rb.write_metafile(box, t, 0)
+                search = os.path.join(box, "search")
+                dest = os.path.join(box, "dest")
+                data = {p: b.bytes() for p, b in rb.torrent_files(t)}
+                keep = files[0][0] if scen == "vanish" else "x.bin.part"
+                other = [p for p in data if p != keep][0]
+                write_tree(search, [(other, data[other])] + ([(keep, data[keep])] if scen == "vanish" else []))
+                write_tree(os.path.join(dest, "pack"), [(keep, data[keep])])
+                st = os.stat(os.path.join(dest, "pack", keep))
+                case = {"scenario": "standing-" + scen, "version": version}
+                try:
+                    with quiet():
+                        asm = Assembler([mpath], [search], dest)
+                        if scen == "vanish":
+                            os.remove(os.path.join(search, other))
+                        asm.assemble_torrents()
+                except Exception:
+                    pass        # a crash is not what C14 judges; what is on disk afterwards is
+                path = os.path.join(dest, "pack", keep)
+                now = open(path, "rb").read() if os.path.isfile(path) else None
+                if now != data[keep]:
+                    run.fail("impl-vs-spec", case, {"why": "a destination file that already had its full "
+                                                           "recorded length was altered or removed",
+                                                    "file": keep, "now": None if now is None else len(now)})
+                run.case(["standing", scen, version], True, sample=case, classes=["standing-" + scen])
+
+
 def run(tier, seed, replay=None):
     impl.use_repo()
     run = Run("C14", tier, seed, RULE)
     from harness.common import Driver
     DRV[0] = Driver()
-    seeds = [replay["case"]["case_seed"]] if replay else \
+    seeds = ([replay["case"]["case_seed"]] if "case_seed" in replay["case"] else []) if replay else \
         [run.rng.randrange(10 ** 9) for _ in range(70 if tier == "quick" else 700)]
     for s in seeds:
         run_case(run, s, tier)
     if not replay or replay["case"].get("scenario") == "releases":
         releases(run, seed)
+    if not replay or str(replay["case"].get("scenario", "")).startswith("standing"):
+        standing(run)
     rb.settle_match(run, DRV[0].run())
     return run.finish()
